@@ -203,8 +203,12 @@ func (ex *Exec) heapGet(st *State, name string, sort Sort) *Term {
 	if t, ok := st.heap[name]; ok {
 		return t
 	}
+	_, known := ex.heapSrt[name]
 	ex.heapSrt[name] = sort
 	t := Sym(name+"@0", sort)
+	if !known {
+		ex.heapFacts(name, t, Sym("alloc0", SInt))
+	}
 	if e := ex.entry; e != nil && e != st {
 		if _, ok := e.heap[name]; !ok {
 			e.heap[name] = t
@@ -251,8 +255,112 @@ func (ex *Exec) heapSet(st *State, name string, v *Term) {
 	}
 }
 
-func fieldHeapName(obj types.Type, path string) string { return "H_" + heapKeyT(obj) + "_" + sanitize(path) }
-func elemHeapName(el types.Type, path string) string   { return "E_" + heapKeyT(el) + "_" + sanitize(path) }
+// heapLeafKind records, per heap name, what kind of values it stores: "ref" (object / map / backing-array ids),
+// "nat" (slice length / offset), "uint", or "" (anything else).
+var heapLeafKind = map[string]string{}
+
+func leafKind(l Leaf) string {
+	switch {
+	case strings.HasSuffix(l.Path, "#arr"):
+		return "ref"
+	case strings.HasSuffix(l.Path, "#len") || strings.HasSuffix(l.Path, "#off"):
+		return "nat"
+	case l.T != nil:
+		switch u := types.Unalias(l.T).Underlying().(type) {
+		case *types.Pointer, *types.Map:
+			return "ref"
+		case *types.Basic:
+			if u.Info()&types.IsUnsigned != 0 {
+				return "nat"
+			}
+		}
+	}
+	return ""
+}
+
+func registerHeap(name string, t types.Type, path string) {
+	if _, ok := heapLeafKind[name]; ok {
+		return
+	}
+	heapLeafKind[name] = ""
+	for _, l := range Layout(t) {
+		if l.Path == path {
+			heapLeafKind[name] = leafKind(l)
+			return
+		}
+	}
+}
+
+func fieldHeapName(obj types.Type, path string) string {
+	n := "H_" + heapKeyT(obj) + "_" + sanitize(path)
+	registerHeap(n, obj, path)
+	return n
+}
+func elemHeapName(el types.Type, path string) string {
+	n := "E_" + heapKeyT(el) + "_" + sanitize(path)
+	registerHeap(n, el, path)
+	return n
+}
+
+// heapFacts assumes the range facts every value stored in heap symbol h satisfies (ids are below the watermark).
+func (ex *Exec) heapFacts(name string, h *Term, wm *Term) {
+	kind := heapLeafKind[name]
+	if kind == "" {
+		return
+	}
+	ex.boundN++
+	o := Bound(fmt.Sprintf("ho%d", ex.boundN), SInt)
+	_, es := h.sort.splitArr()
+	var v *Term
+	vars := []*Term{o}
+	if es.IsArray() {
+		ks, _ := es.splitArr()
+		k := Bound(fmt.Sprintf("hk%d", ex.boundN), ks)
+		vars = append(vars, k)
+		v = Select(Select(h, o), k)
+	} else {
+		v = Select(h, o)
+	}
+	if v.sort != SInt {
+		return
+	}
+	body := Ge(v, Int(0))
+	if kind == "ref" {
+		body = And(body, Le(v, wm))
+	}
+	ex.assumeRaw(Forall(vars, body, []*Term{v}))
+}
+
+// rowFacts: the same for a single fresh row / entry stored at one index of a heap.
+func (ex *Exec) rowFacts(name string, row *Term, wm *Term) {
+	kind := heapLeafKind[name]
+	if kind == "" {
+		return
+	}
+	var v *Term
+	var vars []*Term
+	if row.sort.IsArray() {
+		ks, _ := row.sort.splitArr()
+		ex.boundN++
+		k := Bound(fmt.Sprintf("hk%d", ex.boundN), ks)
+		vars = []*Term{k}
+		v = Select(row, k)
+	} else {
+		v = row
+	}
+	if v.sort != SInt {
+		return
+	}
+	body := Ge(v, Int(0))
+	if kind == "ref" {
+		body = And(body, Le(v, wm))
+	}
+	if len(vars) > 0 {
+		ex.assumeRaw(Forall(vars, body, []*Term{v}))
+	} else {
+		ex.assumeRaw(body)
+	}
+}
 
 func mapKeyOf(t types.Type) string {
 	return sanitize(types.TypeString(types.Unalias(t).Underlying(), nil))
@@ -320,9 +428,19 @@ func mapOf(t types.Type) *mapHeaps {
 }
 
 func (mh *mapHeaps) domName() string { return "MD_" + mh.key }
-func (mh *mapHeaps) lenName() string { return "ML_" + mh.key }
+func (mh *mapHeaps) lenName() string {
+	n := "ML_" + mh.key
+	if _, ok := heapLeafKind[n]; !ok {
+		heapLeafKind[n] = "nat"
+	}
+	return n
+}
 func (mh *mapHeaps) valName(l Leaf) string {
-	return "MV_" + mh.key + "_" + sanitize(l.Path)
+	n := "MV_" + mh.key + "_" + sanitize(l.Path)
+	if _, ok := heapLeafKind[n]; !ok {
+		heapLeafKind[n] = leafKind(l)
+	}
+	return n
 }
 func (mh *mapHeaps) domSort() Sort        { return ArrSort(SInt, ArrSort(mh.ks, SBool)) }
 func (mh *mapHeaps) valSort(l Leaf) Sort  { return ArrSort(SInt, ArrSort(mh.ks, l.Sort)) }
@@ -1003,6 +1121,9 @@ func (ex *Exec) havocFor(st *State, wl *writeLog) *State {
 			ex.typeFacts(ns, v)
 		}
 	}
+	old := ns.wm
+	ns.wm = Fresh("wm", SInt)
+	ex.assume(ns, Ge(ns.wm, old))
 	names := make([]string, 0, len(wl.heaps))
 	for n := range wl.heaps {
 		names = append(names, n)
@@ -1014,10 +1135,8 @@ func (ex *Exec) havocFor(st *State, wl *writeLog) *State {
 			continue
 		}
 		ns.heap[n] = Fresh(n, srt)
+		ex.heapFacts(n, ns.heap[n], ns.wm)
 	}
-	old := ns.wm
-	ns.wm = Fresh("wm", SInt)
-	ex.assume(ns, Ge(ns.wm, old))
 	return ns
 }
 
@@ -1073,7 +1192,9 @@ func (ex *Exec) loopHead(fr *Frame, h *ssa.BasicBlock, in *State, back map[[2]in
 		_, es := srt.splitArr()
 		cur := pre
 		for _, ix := range w.idx {
-			cur = Store(cur, ix, Fresh(n+"_at", es))
+			row := Fresh(n+"_at", es)
+			ex.rowFacts(n, row, ns.wm)
+			cur = Store(cur, ix, row)
 		}
 		ns.heap[n] = cur
 	}
